@@ -137,6 +137,42 @@ func c06BuiltinCalls(c *Ctx, maxLen int) {
 			return true
 		})
 	}
+	// argument expression shapes: the same values reached through a call, an
+	// index access, a field access and parentheses (built-ins that look at the
+	// argument's syntax tree, like doc, see a different node kind)
+	for _, fn := range c06Builtins {
+		if fn == "sleep" || fn == "range" {
+			continue
+		}
+		vectors(c06U, 2, func(idx []int) bool {
+			if len(idx) == 0 || !c.Mine() {
+				return !c.Stopped()
+			}
+			var vals []string
+			for _, i := range idx {
+				vals = append(vals, c06U[i].src)
+			}
+			for len(vals) < 2 {
+				vals = append(vals, "null")
+			}
+			pre := fmt.Sprintf("func id(x) {\n  return x\n}\nl := [%s, %s]\nm := {\"k0\": %s, \"k1\": %s}\n", vals[0], vals[1], vals[0], vals[1])
+			for _, shape := range [][2]string{{"id(%s)", ""}, {"l[%d]", "i"}, {"m.k%d", "i"}, {"(%s)", ""}, {"m[\"k%d\"]", "i"}} {
+				var args []string
+				for k := range idx {
+					if shape[1] == "i" {
+						args = append(args, fmt.Sprintf(shape[0], k))
+					} else {
+						args = append(args, fmt.Sprintf(shape[0], vals[k]))
+					}
+				}
+				if (fn == "setPulseTrigger" || fn == "setCronTrigger") && len(args) >= 3 {
+					continue
+				}
+				c06Stmt(c, pre, fmt.Sprintf("r := %s(%s)", fn, strings.Join(args, ", ")), "builtin "+fn)
+			}
+			return true
+		})
+	}
 	// loop forms over arbitrary values and ranges
 	for _, a := range c06U {
 		for _, b := range c06U {
@@ -158,6 +194,10 @@ func c06BuiltinCalls(c *Ctx, maxLen int) {
 				fmt.Sprintf("let [x, y] := %s", a.src),
 				fmt.Sprintf("mutex m { r := %s + %s }", a.src, b.src),
 				fmt.Sprintf("r := \"{{%s}}\"", strings.Replace(a.src, `"`, `'`, -1)),
+				// a caught error whose trace runs through a commented call (the trace is pretty-printed)
+				fmt.Sprintf("func g(x) {\n  return x + %s\n}\ntry {\n  /**/ g(%s)\n} except e {\n  r := e.trace\n}", a.src, b.src),
+				fmt.Sprintf("func g(x) {\n  return x + %s\n}\ntry {\n  /* c\n d */ g(%s) # e\n} except e {\n  r := e.trace\n}", a.src, b.src),
+				fmt.Sprintf("func g(x) {\n  return x + %s\n}\ntry {\n  #\n  g(%s) #\n} except e {\n  r := e.trace\n}", a.src, b.src),
 			} {
 				c06Stmt(c, "", st, "statement "+strings.Fields(st)[0])
 			}
